@@ -65,6 +65,62 @@ CHECKS.update({
         design='5 C20'),
 })
 
+CHECKS.update({
+    'C02': dict(
+        technique='symbolic execution of the real PlotfileCooker constructor with symbolic header numbers (time, origin, cell sizes, min/max '
+                  'entries as z3 reals rendered as tokens); attribute = reference discharged by z3 for all values',
+        text='Bounded symbolic execution of the real header parser: time, domain origin, cell sizes (hence every dx, geo_high, box bound and '
+             'cell-centre grid) and all min/max entries are z3 reals; every public attribute must equal the reference model for all their values, '
+             'for every limit_level in {None, 0..finest+1} x header_only x maxmins and field lists with repeated names.',
+        note=TRUST + 'Decimal renderings are atomic tokens (float() digit parsing trusted); np.linspace is the real-arithmetic formula.',
+        design='5 C02'),
+    'C06': dict(
+        technique='symbolic execution of the real combine on two SymFS plotfiles with independent layouts and symbolic payloads; output parsed by '
+                  'the independent reader and compared word-for-word with concat_fields(select, select); mismatching meshes must leave an empty audit log',
+        text='Bounded symbolic execution of the real combine for all pairs of binary layouts of 3 boxes over <= 2 files (every 5th pair in the quick tier), '
+             'renamed files, scattered multi-level layouts and field selections in both CLI (string) and list form; every output word must be the right '
+             'source word (identity), min/max rows assembled from the same sources, the real validator must accept, mismatches refused before any write.',
+        note=TRUST + 'Both inputs list their boxes in the same order.',
+        design='5 C06'),
+    'C07': dict(
+        technique='symbolic execution of the real 3D slice with a symbolic position (z3 real) and symbolic payload: the code\'s own comparisons on pos '
+                  'partition the normal axis (one path per class); per path every pixel = specification is a nonlinear real identity discharged by z3',
+        text='Bounded symbolic execution of Mandoline.slice(fformat="return"): pos ranges over [lo-1, hi+1] symbolically, so cell centres, intervals between '
+             'centres, half-cell gaps next to box faces, box faces, domain faces and outside positions are all discovered from the code and decided for every '
+             'pos in the class; pixels must equal the bracket interpolation from the finest level having the bracketing cell, never depend on uninitialised '
+             'memory (np.empty is an unconstrained symbol), grid_level must be a level with a box at the point, outside positions must raise.',
+        note=TRUST + 'Reals instead of IEEE floats; dyadic geometry; isclose tolerance bands other than the centre itself assumed away; the first in-plane axis has >= 3 cells.',
+        design='5 C07, 11'),
+    'C08': dict(
+        technique='symbolic execution of the real 2D flattening on symbolic payload; every pixel must be identical (no arithmetic node) to the covering-grid word',
+        text='Bounded symbolic execution of Mandoline.slice on 2D inputs for field lists x level limits x serial/parallel: out[name][row, col] must BE the word of the '
+             'finest selected level covering the pixel, grid_level that level, x/y the cell centres; np.empty is symbolic so an unwritten pixel is a violation.',
+        note=TRUST + 'Domains narrower than 3 finest cells along x are outside.',
+        design='5 C08'),
+    'C09': dict(
+        technique='symbolic execution of the real occupancy-map construction and volume integral on symbolic payload; returned term = sum over uncovered cells '
+                  'is a (bi)linear polynomial identity discharged by z3',
+        text='Bounded symbolic execution of PlotfileCooker(ghost=True) + volume_integral (and the pestle CLI) on nested meshes with uniform and mixed box sizes: the '
+             'returned z3 term must equal sum over levels <= limit of value x dV [x volFrac] over cells not covered by the next selected level, for all payloads.',
+        note=TRUST + 'Polynomial identity over the reals: summation order and float rounding are outside.',
+        design='5 C09'),
+    'C10': dict(
+        technique='symbolic execution of the real whip entry point on symbolic payload; completion order of imap_unordered is a symbolic schedule (every order a path); '
+                  'float32 conversion is an uninterpreted function',
+        text='Bounded symbolic execution of amr_kitchen.whip.cli.main: the saved array must hold cast(word of the finest selected level covering the cell) for every cell, '
+             'for variable x dtype x level limit x output name and for every completion order of the per-file tasks (<= 3 files per level).',
+        note=TRUST + 'Numeric effect of the float32 cast outside; prompt bypassed with --nochecks.',
+        design='5 C10'),
+    'C16': dict(
+        technique='symbolic execution of the real plotfile-format slice with symbolic position and payload; output tree parsed by the independent reader and compared '
+                  '(nonlinear real identities, z3) with the per-level bracket interpolation; real Taster on the output',
+        text='Bounded symbolic execution of Mandoline.slice(fformat="plotfile"): per position class the written 2D plotfile must be well-formed, accepted by the real validator, '
+             'carry time / in-plane geometry / cell sizes, list exactly the footprints of the boxes the plane meets, hold each level\'s own interpolation and min/max rows equal '
+             'to the extrema of the written data; no written value may depend on uninitialised memory.',
+        note=TRUST + 'As C07; slices above the 1 MB splitting threshold only through the K-chunk lemma.',
+        design='5 C16'),
+})
+
 NOT_YET = {}
 
 ALL = ['C%02d' % i for i in range(1, 21)]
